@@ -25,7 +25,11 @@ import (
 
 // Tree is the canonical form of a YAML value decoded into `any`:
 // T = "s" string, "a" other scalar (canonical text i:.., f:.., b:.., t:.., ?:..), "n" null,
-// "l" list, "m" map with entries sorted by key.
+// "l" list, "m" map with entries sorted by key, "x" map with at least one key that is not a string
+// (yaml decodes it as map[any]any; entries in M, keyed by the canonical text of the key: i:80,
+// b:true, f:1.5, n:, s:name).  For the Coq model an "x" map is the list of its [key; value] pairs:
+// like a list it keeps its shape, has its values resolved and cannot be walked through by a dotted
+// Get key — which is what gconfig does with such a map.
 type Tree struct {
 	T string  `json:"t"`
 	V string  `json:"v,omitempty"`
@@ -55,6 +59,44 @@ func Map(m ...Entry) Tree {
 	}
 	sort.SliceStable(m, func(i, j int) bool { return m[i].K < m[j].K })
 	return Tree{T: "m", M: m}
+}
+
+// XMap builds a map with non-string keys (K = canonical key text).
+func XMap(m ...Entry) Tree {
+	sort.SliceStable(m, func(i, j int) bool { return m[i].K < m[j].K })
+	return Tree{T: "x", M: m}
+}
+
+// KeyText is the canonical text of a key of a map[any]any.
+func KeyText(k any) string {
+	switch x := k.(type) {
+	case nil:
+		return "n:"
+	case string:
+		return "s:" + x
+	case int:
+		return "i:" + strconv.Itoa(x)
+	case int64:
+		return "i:" + strconv.FormatInt(x, 10)
+	case uint64:
+		return "i:" + strconv.FormatUint(x, 10)
+	case float64:
+		return FloatText(x)
+	case bool:
+		return "b:" + strconv.FormatBool(x)
+	}
+	return fmt.Sprintf("?%T:%v", k, k)
+}
+
+// KeyOf rebuilds the key a canonical key text stands for.
+func KeyOf(text string) any {
+	switch {
+	case text == "n:":
+		return nil
+	case strings.HasPrefix(text, "s:"):
+		return text[2:]
+	}
+	return ToAny(Atom(text))
 }
 
 // FloatText is the canonical text of a float scalar.
@@ -94,9 +136,9 @@ func FromAny(v any) Tree {
 	case map[any]any:
 		m := make([]Entry, 0, len(x))
 		for k, e := range x {
-			m = append(m, Entry{fmt.Sprintf("?%T:%v", k, k), FromAny(e)})
+			m = append(m, Entry{KeyText(k), FromAny(e)})
 		}
-		return Map(m...)
+		return XMap(m...)
 	default:
 		return Atom(fmt.Sprintf("?:%T:%v", v, v))
 	}
@@ -141,6 +183,12 @@ func ToAny(t Tree) any {
 		m := make(map[string]any, len(t.M))
 		for _, e := range t.M {
 			m[e.K] = ToAny(e.V)
+		}
+		return m
+	case "x":
+		m := make(map[any]any, len(t.M))
+		for _, e := range t.M {
+			m[KeyOf(e.K)] = ToAny(e.V)
 		}
 		return m
 	}
@@ -223,6 +271,10 @@ func GTree(t Tree) string {
 		return "Null"
 	case "l":
 		return "(Lst " + gal.ListOf(t.L, GTree) + ")"
+	case "x": // the list of its [key; value] pairs
+		return "(Lst " + gal.ListOf(t.M, func(e Entry) string {
+			return "(Lst [Atom " + GStr("k:"+e.K) + "; " + GTree(e.V) + "])"
+		}) + ")"
 	default:
 		return "(Mp " + GEntries(t.M) + ")"
 	}
@@ -239,7 +291,9 @@ func MapKeys(t Tree, into map[string]bool) {
 		MapKeys(e, into)
 	}
 	for _, e := range t.M {
-		into[e.K] = true
+		if t.T == "m" {
+			into[e.K] = true
+		}
 		MapKeys(e.V, into)
 	}
 }
